@@ -12,7 +12,7 @@ import KinModel.Gen.BodyDecoders
 import KinModel.Gen.BodyEncoders
 import KinModel.Lemmas.C13Flow
 import KinModel.C13Iter
-import KinModel.C13Trace
+import KinModel.Lemmas.C13Trace
 namespace KinModel.C13
 open Stream
 
@@ -1314,6 +1314,64 @@ example : ([Ev.guard true, .read, .restore, .install], true) ∈ tracesL (bodyOf
     InstallWithoutRead [.guard true, .read, .restore, .install] = false ∧
     runTrace [7] [.guard true, .read, .restore, .install] ⟨some [1, 2], .none, 2⟩ = ⟨some [7], .ok [7], 1⟩ := by
   refine ⟨by rw [vrb_trace_set]; simp, by decide, by decide, by decide⟩
+
+/-- validateSecurityRequirement in the source, cut at its top-level loops: the paths of each straight piece and of each
+    loop body as stream events (regenerated table): return for an empty requirement; the `names` loop; return for a
+    missing authentication function, else under the body guard read + deferred restore; the scheme loop (return for
+    an undeclared scheme; under `data != nil` the restore; the callback; return or next scheme); the final return -/
+theorem sr_segments : segs (bodyOf "validateSecurityRequirement" c13BodyFlow) [] = srSegs := by decide +kernel
+
+/-- **The model's security requirement is a path of the code**, for every requirement (any number of schemes,
+declared or not, callbacks that read the body or not, succeed or not), with or without an authentication function,
+with or without a body: the request `Stream.secReq` returns and what each callback could read are the result of
+executing concretely — guards evaluated on the current state, `readAll` / `drain` / `restore`, the callbacks of the
+schemes in order, the deferred restore at the return if it was registered — one complete path, with as many
+iterations of the scheme loop as it takes, of the regenerated skeleton of validateSecurityRequirement.  Full strength. -/
+theorem secReq_is_a_skeleton_path (f : Bool) (r : Req) (schemes : List Scheme) :
+    ∃ t s', SegPath (segs (bodyOf "validateSecurityRequirement" c13BodyFlow) []) t ∧
+      runR t ⟨r, none, false, schemes.map (·.auth), []⟩ = some s' ∧
+      finish s' = (secReq f r schemes).1 ∧ s'.seen = (secReq f r schemes).2.2 := by
+  rw [sr_segments]; exact secReq_follows_srSegs f r schemes
+
+/-- non-vacuity: two schemes whose callbacks read the body, the second fails; GetBody absent: the path reads, registers
+    the deferred restore, restores before each callback, returns from inside the loop — and the body is whole again -/
+example :
+    SegPath srSegs ([] ++ ([.guard true, .read, .deferRestore] ++ ([.dataGuard true, .restore, .callback] ++
+      [.dataGuard true, .restore, .callback]))) ∧
+    (runR [.guard true, .read, .deferRestore, .dataGuard true, .restore, .callback, .dataGuard true, .restore, .callback]
+      ⟨⟨some [1, 2], .none, 2⟩, none, false, [⟨true, true⟩, ⟨true, false⟩], []⟩).map finish = some ⟨some [1, 2], .ok [1, 2], 2⟩ ∧
+    (secReq true ⟨some [1, 2], .none, 2⟩ [⟨true, ⟨true, true⟩⟩, ⟨true, ⟨true, false⟩⟩]).1 = ⟨some [1, 2], .ok [1, 2], 2⟩ := by
+  refine ⟨?_, by decide, by decide⟩
+  exact SegPath.straightFall _ _ _ _ (by simp) (SegPath.loopExit _ _ _ (SegPath.straightFall _ _ _ _ (by simp)
+    (SegPath.loopFall _ _ _ _ (by simp [srLoopPaths]) (SegPath.loopRet _ _ _ (by simp [srLoopPaths])))))
+
+/-- ValidateSecurityRequirements and ValidateRequest in the source, cut at their loops (regenerated table): the former
+    returns for an empty list, else calls validateSecurityRequirement per requirement and `continue`s or returns; the
+    latter calls ValidateSecurityRequirements (return or go on), ValidateParameter in two loops (`continue`, return or
+    next), ValidateRequestBody, and returns -/
+theorem vsr_vr_segments :
+    segs (bodyOf "ValidateSecurityRequirements" c13BodyFlow) [] = vsrSegs ∧
+    segs (bodyOf "ValidateRequest" c13BodyFlow) [] = vrSegs := by decide +kernel
+
+/-- **The model's security phase is a path of the code**: request and what the callbacks could read, for every list of
+requirements, = the run of one complete path of the regenerated skeleton of ValidateSecurityRequirements in which
+each call of validateSecurityRequirement is executed by `Stream.secReq` on the next requirement.  Full strength. -/
+theorem secPhase_is_a_skeleton_path (c : Cfg) (oc : Bytes → BodyOutcome) (r : Req) (reqs : List (List Scheme)) :
+    ∃ t s', SegPath (segs (bodyOf "ValidateSecurityRequirements" c13BodyFlow) []) t ∧
+      runK c oc t ⟨r, [], reqs⟩ = some s' ∧
+      s'.req = (secPhase c.hasAuthFunc r reqs).1 ∧ s'.seen = (secPhase c.hasAuthFunc r reqs).2.2 := by
+  rw [vsr_vr_segments.1]; exact secPhase_follows_vsrSegs c oc r reqs
+
+/-- **The whole stream model is a path of the code**: for every configuration (security requirements, authentication
+function, parameters' verdict, fail-first or multi-error, body specified / required, schema outcome) and request, the
+request `Stream.validateStream` returns = the run of one complete path of the regenerated skeleton of
+ValidateRequest, its calls executed by the stream models of the called functions (`secPhase`, `bodyPhase`;
+ValidateParameter leaves the stream alone) — which are themselves paths of their skeletons
+(`secPhase_is_a_skeleton_path`, `secReq_is_a_skeleton_path`, `bodyPhase_is_a_skeleton_path`).  Full strength. -/
+theorem validateStream_is_a_skeleton_path (c : Cfg) (oc : Bytes → BodyOutcome) (r : Req) :
+    ∃ t s', SegPath (segs (bodyOf "ValidateRequest" c13BodyFlow) []) t ∧
+      runK c oc t ⟨r, [], []⟩ = some s' ∧ s'.req = (validateStream c oc r).1 := by
+  rw [vsr_vr_segments.2]; exact validateStream_follows_vrSegs c oc r
 
 end TracePart
 
